@@ -18,6 +18,6 @@ func init() {
 		panic("teeth.json: " + err.Error())
 	}
 	for _, r := range raw {
-		allTeeth = append(allTeeth, tooth{r.Prop, r.Name, r.File, r.Old, r.New, r.Expect})
+		allTeeth = append(allTeeth, tooth{prop: r.Prop, name: r.Name, file: r.File, old: r.Old, new: r.New, expect: r.Expect})
 	}
 }
